@@ -56,6 +56,21 @@ type VWithIface struct {
 	I *int `cbor:"10,keyasint,omitempty" json:"i,omitempty"`
 }
 
+// an embedded interface whose implementation has VALUE receivers: the source may hold the
+// struct by value, the destination holds a pointer to it
+type VThingV interface{ thingv() }
+
+type VImplV struct {
+	H *int `cbor:"9,keyasint" json:"h"`
+}
+
+func (VImplV) thingv() {}
+
+type VWithIfaceV struct {
+	VThingV
+	I *int `cbor:"10,keyasint,omitempty" json:"i,omitempty"`
+}
+
 // vvals: the symbolic content of one instance of the family
 type vvals struct {
 	has  [8]bool // A B E M F G H I
@@ -77,6 +92,8 @@ func genVvals() *vvals {
 	// field A takes a few representative values (both CBOR head widths, zero, a negative)
 	v.ints[0] = [4]int{0, 7, -3, 300}[ndConcrete(verifChoice("val.a", 4))]
 	v.b = [2]string{"", "hey"}[ndConcrete(verifChoice("bval", 2))]
+	// the optional integer E may be present with the value zero (present != non-empty)
+	v.ints[2] = [2]int{9, 0}[ndConcrete(verifChoice("val.e", 2))]
 	v.impl = ndBool("impl")
 	return v
 }
@@ -113,6 +130,13 @@ func (v *vvals) build(k int) (interface{}, []int) {
 	case 4:
 		f := v.flat()
 		return &VAllOpt{B: f.B, E: f.E}, []int{1, 2}
+	case 5:
+		w := VWithIfaceV{I: v.ptr(7)}
+		if v.impl {
+			w.VThingV = VImplV{H: v.ptr(6)} // held BY VALUE
+			return &w, []int{7, 6}
+		}
+		return &w, []int{7}
 	}
 	w := VWithIface{I: v.ptr(7)}
 	if v.impl {
@@ -132,6 +156,11 @@ func vfresh(k int, impl bool) interface{} {
 		return &VOuter2{}
 	case 4:
 		return &VAllOpt{}
+	case 5:
+		if impl {
+			return &VWithIfaceV{VThingV: &VImplV{}}
+		}
+		return &VWithIfaceV{}
 	}
 	if impl {
 		return &VWithIface{VThing: &VImpl{}}
@@ -163,6 +192,19 @@ func vread(k int, p interface{}, i int) (*int, *string) {
 			return nil, x.B
 		}
 		return x.E, nil
+	case *VWithIfaceV:
+		if i == 7 {
+			return x.I, nil
+		}
+		if i == 6 {
+			switch im := x.VThingV.(type) {
+			case *VImplV:
+				return im.H, nil
+			case VImplV:
+				return im.H, nil
+			}
+		}
+		return nil, nil
 	case *VWithIface:
 		if i == 7 {
 			return x.I, nil
